@@ -263,7 +263,7 @@ def vss_jobs(model, tier, config='le'):
                 fb = Job('%s/%s~bounded-fallback' % (fn, lab), tu.text(), srcs, enforce=fn, replace=repl,
                          owners={'post': [pid], 'safety': [pid], 'assigns': [pid, 'C16'], 'loop': [pid], 'unwind': [pid]},
                          clause_map=cm, function=fn, kind='vss-' + side + '-fallback', config=config, timeout=1800, obj_bits=10,
-                         extra_cc=['-DVP_FB_ELEMS=%du' % FB], unwind={fn: FB + 2}, assumptions=assume,
+                         extra_cc=['-DVP_FB_ELEMS=%du' % FB], unwind={'*repo*': FB + 2}, assumptions=assume,
                          bounded='BOUNDED FALLBACK (loop contract not attachable to the rewritten loop): values of at most %d elements, '
                                  'interop paths of at most 16 bytes, loops unwound %d times with unwinding assertions' % (FB, FB + 2))
                 # boundary probe: the longest values the 16-bit length can express, same short unwinding: a loop that (wrongly) runs
@@ -271,7 +271,7 @@ def vss_jobs(model, tier, config='le'):
                 fb.probes = [Job('%s/%s~top-of-range-probe' % (fn, lab), tu.text(), srcs, enforce=fn, replace=repl,
                                  owners={'post': [pid], 'safety': [pid], 'assigns': [pid, 'C16'], 'loop': [pid], 'unwind': [pid]},
                                  clause_map=cm, function=fn, kind='vss-' + side + '-fallback', config=config, timeout=900, obj_bits=10,
-                                 extra_cc=['-DVP_FB_TOP'], unwind={fn: 3}, assumptions=assume, canary=False,
+                                 extra_cc=['-DVP_FB_TOP'], unwind={'*repo*': 3}, assumptions=assume, canary=False,
                                  bounded='BOUNDARY PROBE of the bounded fallback: the last two element counts below 65536 bytes, loops unwound 3 times')]
             jobs.append(Job('%s/%s' % (fn, lab), tu.text(), srcs, enforce=fn, replace=repl,
                             loop_contracts=lc, owners={'post': [pid], 'safety': [pid], 'assigns': [pid, 'C16'], 'loop': [pid]},
